@@ -1,5 +1,6 @@
 /- helper lemmas for C05 (overload resolution) -/
 import XrayModel.Overload
+import XrayProofs.Types
 import Mathlib.Tactic.Tauto
 namespace XrayModel
 
@@ -158,5 +159,234 @@ theorem resolveLoop_ok (u : Bool) (args : List Ty) (cs e g d : List Cand) (i : N
       rcases hc' with h1 | h1
       · exact .inl (List.mem_cons_of_mem _ h1)
       · exact .inr h1
+
+/-! ## renaming of generic parameters -/
+set_option maxHeartbeats 1600000
+
+
+/-- renaming of the keys of a binding -/
+def renB (σ : String → String) (b : Bnd) : Bnd := b.map fun e => (σ e.1, e.2)
+
+theorem get_renB (σ : String → String) (hσ : Function.Injective σ) (b : Bnd) (k : String) :
+    Bnd.get (renB σ b) (σ k) = Bnd.get b k := by
+  induction b with
+  | nil => rfl
+  | cons e rest ih =>
+    obtain ⟨k', v⟩ := e
+    simp only [renB, List.map_cons, Bnd.get] at ih ⊢
+    by_cases h : k' = k
+    · subst h; simp
+    · have : ¬ σ k' = σ k := fun e => h (hσ e)
+      simp only [h, this, if_false]; exact ih
+
+theorem insert_renB (σ : String → String) (hσ : Function.Injective σ) (b : Bnd) (k : String) (v : Ty) :
+    Bnd.insert (renB σ b) (σ k) v = renB σ (Bnd.insert b k v) := by
+  induction b with
+  | nil => rfl
+  | cons e rest ih =>
+    obtain ⟨k', v'⟩ := e
+    simp only [renB, List.map_cons, Bnd.insert] at ih ⊢
+    by_cases h : k' = k
+    · subst h; simp
+    · have : ¬ σ k' = σ k := fun e => h (hσ e)
+      simp only [h, this, if_false, List.map_cons, ih]
+
+theorem mix_renB (σ : String → String) (hσ : Function.Injective σ) (self other : Bnd) :
+    mix (renB σ self) (renB σ other) = (mix self other).map (renB σ) := by
+  induction other generalizing self with
+  | nil => simp [renB, mix]
+  | cons e rest ih =>
+    obtain ⟨k, v⟩ := e
+    have ih' := fun s => ih s
+    simp only [renB, List.map_cons] at ih' ⊢
+    simp only [mix]
+    have hg := get_renB σ hσ self k
+    simp only [renB] at hg
+    rw [hg]
+    cases Bnd.get self k with
+    | some ex =>
+      simp only
+      cases commonType ex v with
+      | none => simp
+      | some c =>
+        simp only
+        have := insert_renB σ hσ self k c
+        simp only [renB] at this
+        rw [this]; exact ih' _
+    | none =>
+      simp only
+      have := insert_renB σ hσ self k v
+      simp only [renB] at this
+      rw [this]; exact ih' _
+
+theorem renameList_length (σ : String → String) : (ts : List Ty) → (renameList σ ts).length = ts.length
+  | [] => rfl
+  | _ :: ts => by simp [renameList, renameList_length σ ts]
+
+theorem renB_nil (σ : String → String) : renB σ [] = [] := rfl
+
+/-- the two last steps of the function-type arms commute with the renaming -/
+theorem tail_renB (σ : String → String) (hσ : Function.Injective σ) (z o : Option Bnd) :
+    (match z.map (renB σ) with
+      | none => none
+      | some acc => match o.map (renB σ) with
+        | none => none
+        | some b => mix acc b) =
+    (match z with
+      | none => none
+      | some acc => match o with
+        | none => none
+        | some b => mix acc b).map (renB σ) := by
+  cases z with
+  | none => rfl
+  | some acc =>
+    cases o with
+    | none => rfl
+    | some b => simp [mix_renB σ hσ]
+
+mutual
+theorem bindIn_rename (σ : String → String) (hσ : Function.Injective σ) : (r s : Ty) → ground s = true →
+    bindIn (renameTy σ r) s = (bindIn r s).map (renB σ)
+  | .bool, s, _ => by cases s <;> simp [bindIn, renameTy, renB]
+  | .int, s, _ => by cases s <;> simp [bindIn, renameTy, renB]
+  | .float, s, _ => by cases s <;> simp [bindIn, renameTy, renB]
+  | .str, s, _ => by cases s <;> simp [bindIn, renameTy, renB]
+  | .unknown, s, _ => by cases s <;> simp [bindIn, renameTy, renB]
+  | .generic a, s, hg => by
+    cases s with
+    | generic x => simp [ground] at hg
+    | _ => simp [bindIn, renameTy, renB]
+  | .func g ps n r, s, hg => by
+    cases s with
+    | func _ _ _ _ => simp [ground] at hg
+    | _ => simp [bindIn, renameTy, renB]
+  | .tuple rs, s, hg => by
+    cases s with
+    | tuple ss =>
+      simp only [ground] at hg
+      simp only [renameTy, bindIn, renameList_length]
+      split
+      · rfl
+      · have := bindZip_rename σ hσ rs ss [] hg
+        rw [renB_nil] at this; exact this
+    | _ => simp [bindIn, renameTy, renB]
+  | .native n rs, s, hg => by
+    cases s with
+    | native m ss =>
+      simp only [ground] at hg
+      simp only [renameTy, bindIn]
+      split
+      · rfl
+      · have := bindZip_rename σ hσ rs ss [] hg
+        rw [renB_nil] at this; exact this
+    | _ => simp [bindIn, renameTy, renB]
+  | .compound k n rs, s, hg => by
+    cases s with
+    | compound k' m ss =>
+      simp only [ground] at hg
+      simp only [renameTy, bindIn]
+      split
+      · rfl
+      · exact bindZipRev_rename σ hσ rs ss hg
+    | _ => simp [bindIn, renameTy, renB]
+  | .callable ps r, s, hg => by
+    cases s with
+    | callable ps' r' =>
+      simp only [ground, Bool.and_eq_true] at hg
+      simp only [renameTy, bindIn, renameList_length]
+      split
+      · rfl
+      · have h1 := bindZip_rename σ hσ ps ps' [] hg.1
+        rw [renB_nil] at h1
+        rw [h1, bindIn_rename σ hσ r r' hg.2]
+        exact tail_renB σ hσ _ _
+    | func _ _ _ _ => simp [ground] at hg
+    | _ => simp [bindIn, renameTy, renB]
+theorem bindZip_rename (σ : String → String) (hσ : Function.Injective σ) : (rs ss : List Ty) → (acc : Bnd) →
+    groundList ss = true → bindZip (renameList σ rs) ss (renB σ acc) = (bindZip rs ss acc).map (renB σ)
+  | [], ss, acc, _ => by simp [renameList, bindZip]
+  | r :: rs, [], acc, _ => by simp [renameList, bindZip]
+  | r :: rs, s :: ss, acc, hg => by
+    simp only [groundList, Bool.and_eq_true] at hg
+    simp only [renameList, bindZip]
+    rw [bindIn_rename σ hσ r s hg.1]
+    cases bindIn r s with
+    | none => rfl
+    | some sub =>
+      simp only [Option.map_some]
+      rw [mix_renB σ hσ]
+      cases mix acc sub with
+      | none => rfl
+      | some acc' => simp only [Option.map_some]; exact bindZip_rename σ hσ rs ss acc' hg.2
+theorem bindZipRev_rename (σ : String → String) (hσ : Function.Injective σ) : (rs ss : List Ty) →
+    groundList ss = true → bindZipRev (renameList σ rs) ss = (bindZipRev rs ss).map (renB σ)
+  | [], ss, _ => by simp [renameList, bindZipRev, renB]
+  | r :: rs, [], _ => by simp [renameList, bindZipRev, renB]
+  | r :: rs, s :: ss, hg => by
+    simp only [groundList, Bool.and_eq_true] at hg
+    simp only [renameList, bindZipRev]
+    rw [bindZipRev_rename σ hσ rs ss hg.2, bindIn_rename σ hσ r s hg.1]
+    cases bindZipRev rs ss with
+    | none => rfl
+    | some acc =>
+      cases bindIn r s with
+      | none => rfl
+      | some sub => simp only [Option.map_some]; exact mix_renB σ hσ acc sub
+end
+
+theorem specBind_rename (σ : String → String) (hσ : Function.Injective σ) (f : FuncSpec) (args : List Ty)
+    (hg : groundList args = true) : specBind (f.rename σ) args = (specBind f args).map (renB σ) := by
+  obtain ⟨gens, ps, nreq, ret, sc⟩ := f
+  have := bindZip_rename σ hσ ps args [] hg
+  rw [renB_nil] at this
+  show (if (decide (args.length < nreq) || decide (args.length > (renameList σ ps).length)) = true then none
+      else bindZip (renameList σ ps) args []) =
+    (if (decide (args.length < nreq) || decide (args.length > ps.length)) = true then none else bindZip ps args []).map (renB σ)
+  rw [renameList_length, this]
+  split <;> rfl
+
+theorem matches_rename (σ : String → String) (hσ : Function.Injective σ) (c : Cand) (args : List Ty)
+    (hg : groundList args = true) : (c.rename σ).matches args = c.matches args := by
+  show (specBind (c.spec.rename σ) args).isSome = (specBind c.spec args).isSome
+  rw [specBind_rename σ hσ c.spec args hg]
+  cases specBind c.spec args <;> rfl
+
+theorem bucket_rename (σ : String → String) (c : Cand) (u : Bool) : (c.rename σ).bucket u = c.bucket u := by
+  obtain ⟨id, ⟨gens, ps, nreq, ret, sc⟩, kind, height⟩ := c
+  cases kind with
+  | dynamic => rfl
+  | static => cases gens <;> rfl
+
+theorem decide3_rename (σ : String → String) (u : Bool) (e g d : List Cand) :
+    decide3 u (e.map (Cand.rename σ)) (g.map (Cand.rename σ)) (d.map (Cand.rename σ)) = decide3 u e g d := by
+  match e, g, d with
+  | [_], _, _ => rfl
+  | _ :: _ :: _, _, _ => simp [decide3]
+  | [], [_], _ => rfl
+  | [], _ :: _ :: _, _ => simp [decide3]
+  | [], [], [_] => rfl
+  | [], [], _ :: _ :: _ => simp [decide3]
+  | [], [], [] => rfl
+
+theorem resolveLoop_rename (σ : String → String) (hσ : Function.Injective σ) (u : Bool) (args : List Ty)
+    (hg : groundList args = true) (cs e g d : List Cand) :
+    resolveLoop u args (cs.map (Cand.rename σ)) (e.map (Cand.rename σ)) (g.map (Cand.rename σ)) (d.map (Cand.rename σ)) =
+      resolveLoop u args cs e g d := by
+  induction cs generalizing e g d with
+  | nil => simp only [List.map_nil, resolveLoop]; exact decide3_rename σ u e g d
+  | cons c cs ih =>
+    simp only [List.map_cons, resolveLoop, matches_rename σ hσ c args hg, bucket_rename]
+    have hsc : (c.rename σ).spec.shortCircuit = c.spec.shortCircuit := rfl
+    have hid : (c.rename σ).id = c.id := rfl
+    rw [hsc, hid]
+    split
+    · split
+      · rfl
+      · split
+        · have := ih (e ++ [c]) g d; simpa using this
+        · have := ih e (g ++ [c]) d; simpa using this
+        · have := ih e g (d ++ [c]); simpa using this
+    · exact ih e g d
+
 
 end XrayModel
